@@ -105,6 +105,12 @@ func c16Gen(tier string, emit func(c16Case)) {
 	for _, capN := range []int{0, 2, 64} {
 		emit(c16Case{Kind: "late", Cache: capN})
 	}
+	// three routers built from one slice of option values (every caching option)
+	for o := 0; o < 3; o++ {
+		for _, capN := range []int{1, 2, 16} {
+			emit(c16Case{Kind: "shared-options", Mask: o, Cache: capN})
+		}
+	}
 	// several resources (12+ routes of one method in one bucket) next to another dynamic route of the same first segment
 	for where := 0; where < 4; where++ {
 		for _, base := range []string{"/api/{t}/", "/{t}/", "/api/"} {
@@ -228,6 +234,52 @@ func c16Run(c c16Case, st *fw.Stats) []fw.Viol {
 					add("resource:serve-panic", fmt.Sprintf("resource registered late: %s %s panicked: %v", x.m, x.p, pv))
 				} else if got := strings.Join(rec.log, " "); got != x.want {
 					add("resource:dispatch", fmt.Sprintf("router (route cache capacity %d) with generic routes /{a}, /{a}/{b}, /{a}/{b}/{c} and a group without middleware whose body called Use; every request was served twice, THEN Resource(\"/\", all seven actions) was registered: %s %s ran [%s], the documented table gives [%s]", c.Cache, x.m, x.p, got, x.want))
+				}
+			}
+		}
+		return vs
+	}
+	if c.Kind == "shared-options" {
+		// ONE slice of option values is applied to three routers: A and B register the same resource type with their
+		// own controller instance, C registers nothing. A is requested first. Every router must dispatch by its own table.
+		mk := [](func() func(*rux.Router)){
+			func() func(*rux.Router) { return rux.CachingWithNum(uint16(max(c.Cache, 1))) },
+			func() func(*rux.Router) { return rux.MaxNumCaches(uint16(max(c.Cache, 1))) },
+			func() func(*rux.Router) { return rux.EnableCaching },
+		}[c.Mask]
+		opts := []func(*rux.Router){rux.HandleMethodNotAllowed, mk()}
+		recA, recB := &c16Rec{}, &c16Rec{}
+		var a, b, cc *rux.Router
+		if pv := try(func() {
+			a = rux.New(opts...)
+			a.Resource("/", c16New(127, false, recA))
+			b = rux.New(opts...)
+			b.Resource("/", c16New(127, false, recB))
+			cc = rux.New(opts...)
+			cc.GET("/other/{id}", func(*rux.Context) {})
+		}); pv != nil {
+			add("resource:panic", fmt.Sprintf("three routers built from one options slice panicked: %v", pv))
+			return vs
+		}
+		res := "/res127"
+		type q struct{ m, p, want string }
+		qs := []q{{"GET", res + "/1", "action:Show:1"}, {"GET", res + "/1/edit", "action:Edit:1"}, {"PUT", res + "/1", "action:Update:1"}, {"PATCH", res + "/2", "action:Update:2"}, {"DELETE", res + "/1", "action:Delete:1"}, {"GET", res, "action:Index:"}, {"GET", res + "/create", "action:Create:"}}
+		for round := 0; round < 2; round++ {
+			for _, x := range qs {
+				for ri, r := range []*rux.Router{a, b, cc} {
+					st.Evals++
+					st.Nontrivial++
+					recA.log, recB.log = recA.log[:0], recB.log[:0]
+					w := httptest.NewRecorder()
+					if pv := try(func() { r.ServeHTTP(w, httptest.NewRequest(x.m, x.p, nil)) }); pv != nil {
+						add("resource:serve-panic", fmt.Sprintf("three routers built from one options slice: %s %s on router %c panicked: %v", x.m, x.p, 'A'+ri, pv))
+						continue
+					}
+					got := fmt.Sprintf("A's controller ran [%s], B's controller ran [%s], status %d", strings.Join(recA.log, " "), strings.Join(recB.log, " "), w.Code)
+					want := [3]string{fmt.Sprintf("A's controller ran [%s], B's controller ran [], status 200", x.want), fmt.Sprintf("A's controller ran [], B's controller ran [%s], status 200", x.want), "A's controller ran [], B's controller ran [], status 404"}[ri]
+					if got != want {
+						add("resource:dispatch", fmt.Sprintf("routers A, B, C built from ONE slice of option values (caching option #%d, capacity %d); A and B register Resource(\"/\", all seven actions) with their own controller instance, C has no resource; each request goes to A, then B, then C: %s %s on router %c: %s; expected: %s", c.Mask, c.Cache, x.m, x.p, 'A'+ri, got, want))
+					}
 				}
 			}
 		}
@@ -588,7 +640,7 @@ var c16Spec = fw.Spec[c16Case]{
 	Workers: 1,
 	// the only nondeterminism is Go's map iteration order inside Resource (code under test): a confirmation replay may be retried
 	ReplayAttempts: 40,
-	Rule: "complete enumeration: all 128 subsets of the seven actions as controller method sets (generated types) x with/without Uses() (two distinct middleware, closures of one function literal, for every action, implemented or not) x base in {/, /api/, \"\", /{t}/, /{t:[a-z]{4}}/ (a variable in the base path, plain and with a regex)}; four resources at once next to a more specific dynamic route of the same first segment; a resource registered after its paths were already served by generic routes (route cache off / 2 / 64) and after a middleware-less group whose body called Use x outside a group / inside Group(/g) / inside Group(/) (group middleware passed with spare capacity) (+ outside a group on a router with a route cache of capacity 1 or 2, all probes issued twice in two orders); the same controller (whose Uses() table is one shared map) registered twice; the registration order inside Resource is DRIVEN through the insertion order of the exported rux.RESTFulActions map and OBSERVED from rux's own debug print; registration is repeated until every permutation of the implemented actions (k<=4, thorough k<=6 on the plain base; all rotations of two base orders beyond) has been observed, or until >12 differently driven registrations all showed one and the same order of >=2 actions (the order then does not come from the map: counter registration_order_independent_of_map_order); " +
+	Rule: "complete enumeration: all 128 subsets of the seven actions as controller method sets (generated types) x with/without Uses() (two distinct middleware, closures of one function literal, for every action, implemented or not) x base in {/, /api/, \"\", /{t}/, /{t:[a-z]{4}}/ (a variable in the base path, plain and with a regex)}; four resources at once next to a more specific dynamic route of the same first segment; three routers built from ONE slice of option values (each of the 3 caching options, capacities 1, 2, 16), two of them registering the same resource type with their own controller instance and requested alternately; a resource registered after its paths were already served by generic routes (route cache off / 2 / 64) and after a middleware-less group whose body called Use x outside a group / inside Group(/g) / inside Group(/) (group middleware passed with spare capacity) (+ outside a group on a router with a route cache of capacity 1 or 2, all probes issued twice in two orders); the same controller (whose Uses() table is one shared map) registered twice; the registration order inside Resource is DRIVEN through the insertion order of the exported rux.RESTFulActions map and OBSERVED from rux's own debug print; registration is repeated until every permutation of the implemented actions (k<=4, thorough k<=6 on the plain base; all rotations of two base orders beyond) has been observed, or until >12 differently driven registrations all showed one and the same order of >=2 actions (the order then does not come from the map: counter registration_order_independent_of_map_order); " +
 		"per observed order: Routes()/NamedRoutes() equal the documented table exactly, all 9 methods x 8 probe paths dispatch as the reference resolver says over that table (create never served by show, nothing else reachable), per-action middleware runs only for its action; non-pointer / non-struct / wrong-shaped controllers; non-trivial = a distinct (subset, order) registration",
 	Assume: []string{"runs single-threaded: RESTFulActions, the debug switch and the colour output are process-global", "Go's small-map iteration starts at a random offset of the insertion order; an order not seen within 400 draws is reported as a cap, never as a violation"},
 	Bounds: func(tier string) map[string]any {
